@@ -128,8 +128,9 @@ class C07Bounded(Bounded):
             except SigmaError:
                 pass
         # modifier chains whose later modifier cannot take what the earlier one produces (incl. behind an expanding modifier)
-        for key in ("f|windash|i", "f|base64offset|hour", "f|windash|m", "f|base64offset|gt", "f|windash|base64offset|i", "f|contains|re", "f|re|contains", "f|cidr|contains", "f|wide|cidr", "f|exists|windash"):
-            for val in ("-a b", ["-a", "x"], 5):
+        for key in ("f|windash|i", "f|base64offset|hour", "f|windash|m", "f|base64offset|gt", "f|windash|base64offset|i", "f|contains|re", "f|re|contains", "f|cidr|contains", "f|wide|cidr", "f|exists|windash",
+                    "f|re|startswith", "f|re|endswith", "f|re|i|contains", "f|re|expand|startswith", "f|contains", "f|startswith|endswith", "f|base64offset|contains", "f|windash", "f|expand"):
+            for val in ("-a b", ["-a", "x"], 5, "", [""], ["", "a"], "*", "?", "\\"):
                 check("rule", setp(RULE, ("detection", "sel"), {key: val}), SigmaRule.from_dict, f"detection/sel = {{{key!r}: {val!r}}}")
         for w in WRONG:
             for kind, fn in (("rule", SigmaRule.from_dict), ("correlation", SigmaCorrelationRule.from_dict), ("filter", SigmaFilter.from_dict)):
@@ -148,6 +149,11 @@ class C07Bounded(Bounded):
         for ref in (4625, None, 1.5, True, ["n"], _dt.date(2024, 1, 2), {"a": 1}):
             docs_sets.append([RULE, setp(FILT, ("filter", "rules"), [ref])])
             docs_sets.append([setp(FILT, ("filter", "rules"), ["zz", ref]), RULE])
+        # reference cycles between correlation rules (two rules naming each other, a rule naming itself)
+        cyc = lambda title, refs: {"title": title, "name": title, "correlation": {"type": "temporal", "rules": refs, "timespan": "1m", "group-by": ["u"]}}
+        docs_sets.append([RULE, cyc("ca", ["cb"]), cyc("cb", ["ca"])])
+        docs_sets.append([cyc("self", ["self"]), RULE])
+        docs_sets.append([cyc("c1", ["c2"]), cyc("c2", ["c3"]), cyc("c3", ["c1"]), RULE])
         for di, ds in enumerate(docs_sets):
             ev += 1
             nontriv += 1
